@@ -48,13 +48,18 @@ pub fn gen_case(prop: &str, tier: &str, rng: &mut Rng, idx: usize) -> Case {
 /// subset of the forward edges of a topological order), every assignment of the ids to the nodes;
 /// then EVERY query of the property on it (all ordered pairs / all root-leaf-set combinations).
 fn small_scope2(prop: &str, idx: usize) -> Case {
-    let mut c = Case::new("small-scope-exhaustive");
     let (n, i) = if idx < 64 * 24 { (4usize, idx) } else { (3usize, idx - 64 * 24) };
     let nperm: usize = (1..=n).product();
-    let mask = i / nperm;
-    let idp = nth_perm(n, i % nperm);
+    small_dag_case(prop, n, i / nperm, i % nperm)
+}
+
+/// one DAG on `n` <= 5 nodes (`mask` = subset of the forward edges), ids assigned by the
+/// `perm`-th permutation, and every query of the property on it
+pub fn small_dag_case(prop: &str, n: usize, mask: usize, perm: usize) -> Case {
+    let mut c = Case::new("small-scope-exhaustive");
+    let idp = nth_perm(n, perm);
     // C19 is about HP:1 and HP:118: both are among the ids, in every position of the DAG
-    let pool: [u32; 4] = if prop == "C19" { [1, 57, 118, 400] } else { [3, 57, 400, 9_999_999] };
+    let pool: [u32; 5] = if prop == "C19" { [1, 57, 118, 400, 2000] } else { [3, 57, 400, 9_999_999, 70_000] };
     let pool_n: Vec<u32> = if prop == "C19" && n == 3 { vec![1, 57, 118] } else { pool[..n].to_vec() };
     let ids: Vec<u32> = (0..n).map(|k| pool_n[idp[k]]).collect();
     c.op("new".to_string());
@@ -319,7 +324,29 @@ fn c20(rng: &mut Rng, tier: &str, idx: usize) -> Case {
     // strings: structured mostly-valid + malformed
     let alphabet: Vec<&str> = vec!["0", "1", "9", "5", "H", "P", ":", "+", "-", " ", "é", "日", "😀", "a", "٣", "\u{0}"];
     for _ in 0..per / 2 {
-        let s: String = match rng.below(11) {
+        let s: String = match rng.below(13) {
+            11 => {
+                // numbers around and far beyond 2^64 (wrap-around of a wider accumulator lands on small ids)
+                let base: u128 = *rng.pick(&[1u128 << 64, (1u128 << 64) + 118, (1u128 << 64) - 1, 1u128 << 32, (1u128 << 96) + 1, 100_000_000_000_000_000_000u128]);
+                let n = base + u128::from(rng.below(3));
+                let w = rng.range(0, 30) as usize;
+                format!("HP:{}{n:0w$}", *rng.pick(&["", "", "+"]))
+            }
+            12 => {
+                // long invalid text (a whole annotation line) with multi-byte characters straddling
+                // the offsets around 16 / 32 / 64 / 128 / 256
+                let target = *rng.pick(&[16usize, 32, 64, 128, 256]);
+                let pad = target - 1 - rng.below(3) as usize;
+                let mut t = String::from("HP:");
+                while t.len() < pad {
+                    t.push(*rng.pick(&['x', '1', ' ', '\t']));
+                }
+                for _ in 0..rng.range(1, 3) {
+                    t.push(*rng.pick(&['ö', '日', '😀', 'é']));
+                }
+                t.push_str(" tail");
+                t
+            }
             8 => {
                 // sign and zero padding to 8..13 digits, value inside and outside u32
                 let n = if rng.chance(1, 2) { rng.below(4_294_967_296) } else { rng.below(1_000_000_000_000) };
@@ -474,7 +501,9 @@ pub fn big_records_case(rng: &mut Rng, variant: u64, thorough: bool) -> (Case, b
     match variant {
         0 => {
             let n = *rng.pick(&[65_534u32, 65_535, 65_535, 65_536, 65_536, 65_537, 70_000]);
-            let m = *rng.pick(&[1u32, 3]);
+            // m = 0: no record of the kind is linked to any term - its ic is 0 everywhere, also
+            // beyond the limit (nothing is converted)
+            let m = *rng.pick(&[0u32, 1, 3]);
             for i in 0..m {
                 c.op(format!("ann {} {} {} {}", KINDS[k], 10 + i, name("linked"), if i == 0 { 2 } else { 3 }));
             }
@@ -486,8 +515,11 @@ pub fn big_records_case(rng: &mut Rng, variant: u64, thorough: bool) -> (Case, b
                     c.op(format!("addrec {} 8 {}", KINDS[j], name("unlinked")));
                 }
             }
-            ok = n <= 65_535;
+            ok = n <= 65_535 || m == 0;
             c.stat(&format!("records_of_one_kind_{n}"), 1);
+            if m == 0 {
+                c.stat("records_of_one_kind_all_unlinked", 1);
+            }
         }
         1 => {
             // every kind within the limit, the sum far above it
@@ -545,6 +577,31 @@ fn onto_case(rng: &mut Rng, prop: &str, tier: &str, idx: usize) -> Case {
         c.op("dump 0".to_string());
         match prop {
             "C01" => {
+                c.op("oracle closure 0".to_string());
+            }
+            "C02" => c.op("oracle inherit 0".to_string()),
+            "C03" => c.op("oracle ic 0".to_string()),
+            _ => {}
+        }
+        c.nontrivial = true;
+        return c;
+    }
+    if idx % 50 == 37 {
+        // more than 30 ancestors combined with multi-parent structure
+        let mut c = Case::new("trunk");
+        let mut f = gen_trunk(rng);
+        let path = rng.below(4);
+        if path == 0 {
+            facts_to_prog(rng, &f, &ProgOpts { shuffle: true, failing_permille: 0, build_defaults: true, slot: 0 }, &mut c);
+        } else {
+            let flags = gen_flags(rng, &mut f);
+            facts_to_fops(rng, &f, &flags, path as u8, 0, true, &mut c);
+        }
+        facts_stats(&f, &mut c);
+        c.op("dump 0".to_string());
+        match prop {
+            "C01" => {
+                c.op("rel 0".to_string());
                 c.op("oracle closure 0".to_string());
             }
             "C02" => c.op("oracle inherit 0".to_string()),
@@ -773,7 +830,43 @@ fn c16(rng: &mut Rng, tier: &str, idx: usize) -> Case {
     c
 }
 
-fn c19(rng: &mut Rng, _idx: usize) -> Case {
+fn c19(rng: &mut Rng, idx: usize) -> Case {
+    if idx % 20 == 9 {
+        // terms with more than 30 ancestors (ids in random order) below modifier roots and categories
+        let mut c = Case::new("defaults-deep");
+        let mut f = gen_trunk(rng);
+        let used: Vec<u32> = f.terms.iter().map(|t| t.0).collect();
+        let extra = gen_ids(rng, 40, &used);
+        for id in &extra {
+            f.terms.push((*id, gen_name(rng)));
+        }
+        // three modifier roots; a chain of 32 below the second; terms below its end, one of them
+        // also below the phenotype trunk
+        let (roots, rest) = extra.split_at(3);
+        for r in roots {
+            f.edges.push((1, *r));
+        }
+        let (chain, tail) = rest.split_at(32);
+        f.edges.push((roots[1], chain[0]));
+        for i in 1..chain.len() {
+            f.edges.push((chain[i - 1], chain[i]));
+        }
+        f.edges.push((chain[31], tail[0]));
+        f.edges.push((chain[31], tail[1]));
+        let deep_pheno = used[used.len() - 5];
+        f.edges.push((deep_pheno, tail[1]));
+        f.edges.push((roots[0], tail[2]));
+        f.edges.push((tail[2], tail[3]));
+        f.edges.push((chain[20], tail[3]));
+        f.edges.push((roots[2], tail[4]));
+        facts_stats(&f, &mut c);
+        facts_to_prog(rng, &f, &ProgOpts { shuffle: true, failing_permille: 0, build_defaults: true, slot: 0 }, &mut c);
+        c.op("dump 0".to_string());
+        c.op("oracle defaults 0".to_string());
+        c.stat("deep_default_cases", 1);
+        c.nontrivial = true;
+        return c;
+    }
     let mut c = Case::new("defaults");
     let missing = rng.below(8); // 0: no HP:1, 1: no HP:118, else both present
     let max_terms = *rng.pick(&[4usize, 8, 15, 30]);
@@ -958,6 +1051,17 @@ fn c10(rng: &mut Rng, idx: usize) -> Case {
         c.op(format!("genebyname 0 {}", name(&q)));
         c.op(format!("omimsearch 0 {}", name(&q)));
     }
+    // a clone answers like the original: sweep, iteration, the lookups at the extreme ids
+    c.op("clone 0 5".to_string());
+    c.op("same 0 5".to_string());
+    c.op("sweep 5".to_string());
+    c.op("iter 5".to_string());
+    let mut sorted: Vec<u32> = f.terms.iter().map(|t| t.0).collect();
+    sorted.sort_unstable();
+    for id in sorted.iter().take(2).chain(sorted.iter().rev().take(2)) {
+        c.op(format!("hpo 5 {id}"));
+    }
+    c.op("dump 5".to_string());
     c.nontrivial = true;
     c
 }
